@@ -322,7 +322,9 @@ def f15_adjacent(node):
     if "low" not in kinds or "up" in kinds or "RPAR" not in kinds:
         return False
     i = kinds.index("RPAR")
-    return i + 1 < len(kinds) and kinds[i + 1] in ("FIX", "n")
+    before = [k for k in kinds[:i] if k not in ("WS", "COMMENT", "NEWLINE", "CONT")]
+    # the lexer is in the state that accepts VALUE only right after the init number
+    return i + 1 < len(kinds) and kinds[i + 1] in ("FIX", "n") and bool(before) and before[-1] == "init"
 
 
 def classify_update(facts, old_ps, new_ps):
@@ -337,7 +339,7 @@ def classify_update(facts, old_ps, new_ps):
         return "theta-fix-inside-parens-edit"
     if facts["inner_comment"]:
         return "theta-inner-comment-edit"
-    if facts["trailing_comma"] and changed_bounds:
+    if facts["trailing_comma"]:
         return "theta-trailing-comma-edit"
     if facts["rpar_adjacent"] and new_ps[0][1] > -1e6 and new_ps[0][2] == INF:
         return "theta-low-init-rpar-adjacent"
